@@ -403,7 +403,14 @@ def r9_builder_wrappers_forward_every_value(ctx):
     R.floor("C20.R9", n, 2, "insert wrappers")
 
 
-LIB_RULES = [r9_builder_wrappers_forward_every_value, r8_builders_hand_out_their_bytes, r7_transports_send_the_text_they_are_given, r6_builders_do_not_panic, rser_request_envelope_keeps_params, rkey_named_keys_are_json_strings, r1_rollback, r2_build, r3_impls, r4_batch_builder, r5_builders_wrap_their_own_kind]
+def r10_builder_clone_is_derived(ctx):
+    """a clone of a builder encodes what the original encodes - in particular a clone of an empty builder is empty (`no
+    params`): Clone for ParamsBuilder / ArrayParams / ObjectParams is derived"""
+    from .common import derived_impls_stay_derived
+    derived_impls_stay_derived(ctx, "C20.R10", [("Clone for ParamsBuilder", r"^<jsonrpsee_core::params::params_builder::ParamsBuilder as std::clone::Clone>::clone$"), ("Clone for ArrayParams", r"^<jsonrpsee_core::params::ArrayParams as std::clone::Clone>::clone$"), ("Clone for ObjectParams", r"^<jsonrpsee_core::params::ObjectParams as std::clone::Clone>::clone$")])
+
+
+LIB_RULES = [r10_builder_clone_is_derived, r9_builder_wrappers_forward_every_value, r8_builders_hand_out_their_bytes, r7_transports_send_the_text_they_are_given, r6_builders_do_not_panic, rser_request_envelope_keeps_params, rkey_named_keys_are_json_strings, r1_rollback, r2_build, r3_impls, r4_batch_builder, r5_builders_wrap_their_own_kind]
 CONFIGS_QUICK = ["libs-all", "corpus"]
 CONFIGS_THOROUGH = ["libs-all", "facade-full", "corpus"]
 
